@@ -70,6 +70,7 @@ type fctx struct {
 	ntemp     int
 	tailParam string              // [seq] the parameter standing for a timed tail
 	nilErr    map[*ast.Ident]bool // [ext:T20] occurrences of nil that stand for the nil error
+	x07       *fstate07           // [ext:T07] parents, views (trans_ext07.go)
 	extra03   []string            // [ext:T03] extra parameters (memory read through unsafe.Pointer)
 	notes03   []string            // [ext:T03] comment lines for the generated definition
 	inRet     int                 // [BitsCode] > 0 while the operands of a `return` are translated (struct literals may then hold named slices)
@@ -157,6 +158,7 @@ func (c *fctx) aliasSource(e ast.Expr, en *env) (string, bool) {
 }
 
 func (c *fctx) checkWritable(key string, en *env, at ast.Node) {
+	c.viewCheck07(key, en, at) // [ext:T07] results of append-style calls that may be views of this variable must be dead
 	if key == "" {
 		c.t.fail(at, "in-place write to a slice that is not a variable or a field")
 	}
@@ -330,6 +332,9 @@ func (c *fctx) expr(e ast.Expr, en *env, k func(string) string) string {
 		}
 		if s, ok := c.sentinel20(x, o); ok { // [ext:T20] package-level `var ErrX = errors.New("...")`, never assigned
 			c.sentinelClash15(x) // [ext:T15]
+			return k(s)
+		}
+		if s, ok := c.table07(x, o); ok { // [ext:T07] package-level `var t = []byte{...}` that nothing writes
 			return k(s)
 		}
 		t.fail(x, "identifier %s (not a local variable, parameter or constant)", x.Name)
@@ -680,6 +685,9 @@ func (c *fctx) call(x *ast.CallExpr, en *env, k func([]string) string) string {
 	if s, ok := c.seqCall(x, en, k); ok { // [seq] sync/atomic, runtime.Gosched
 		return s
 	}
+	if s, ok := c.call07(x, en, k); ok { // [ext:T07] modelled standard-library functions, identity functions
+		return s
+	}
 	if s, ok := c.call15(x, en, k); ok { // [ext:T15] fmt.Errorf / errors.New as an error kind; hex.EncodedLen / DecodedLen
 		return s
 	}
@@ -723,6 +731,7 @@ func (c *fctx) call(x *ast.CallExpr, en *env, k func([]string) string) string {
 			t.fail(x, "call of %s through a receiver expression that is not a variable", fi.goName)
 		}
 	}
+	var wb07 *writeBack07 // [ext:T07] slice arguments the callee writes in place come back and are stored
 	emit := func(rterm string, vs []string) string {
 		app := fi.name + fuel + c.callee08(fi, x) // [ext:T08] ext'
 		if rv != nil {
@@ -755,6 +764,7 @@ func (c *fctx) call(x *ast.CallExpr, en *env, k func([]string) string) string {
 		for _, g := range t.ordered20(fi.gwrites) {
 			parts = append(parts, c.globalName20(g, en, x))
 		}
+		parts = append(parts, wb07.names()...)           // [ext:T07]
 		parts = append(parts, c.outArgs15(fi, x, en)...) // [ext:T15] the slices written in place come back
 		if len(rs) > 0 {
 			parts = append(parts, tuple(rs))
@@ -766,7 +776,10 @@ func (c *fctx) call(x *ast.CallExpr, en *env, k func([]string) string) string {
 		if strings.HasPrefix(pat, "(") {
 			pat = "'" + pat
 		}
-		return fmt.Sprintf("do %s <- %s;;\n%s%s", pat, app, recvBack03(rv, fi), k(rs)) // [ext:T03] recvBack03: "" unless a path receiver was written
+		return fmt.Sprintf("do %s <- %s;;\n%s%s", pat, app, recvBack03(rv, fi), wb07.code(func() string { return k(rs) })) // [ext:T03] recvBack03: "" unless a path receiver was written; [ext:T07] wb07.code
+	}
+	if len(fi.outs07) > 0 && !recvArg { // [ext:T07]
+		return c.argsOut07(fi, x, recv, en, &wb07, func(vs []string) string { return emit("", vs) })
 	}
 	if recvArg {
 		return c.expr(recv, en, func(r string) string {
